@@ -12,3 +12,8 @@ package fmt
 //@ func Builtins
 //@ props C11
 //@ ensures[C11.builtins.unowned] forallU(k, string, haskey(result, k) ==> typeof(result[k]) == *object.Builtin && ref(result[k]) != nil && result[k].(*object.Builtin).module == nil)
+
+// C12: print / printf / println write to the standard output of the OS the host supplied. Go's own fmt.Print* and the
+// log package write to the process's real stdout / stderr: no function of this package references them (seed C12i: a
+// fast path in Printf for a format string without arguments called fmt.Print).
+//@ scan[C12.realstdout.fmt] C12 extcalls fmt.Print,fmt.Printf,fmt.Println,log.*,fmt.Scan,fmt.Scanf,fmt.Scanln:
